@@ -191,6 +191,15 @@ func (s *sshSrv) serve(c net.Conn, sc *ssh.ServerConfig) {
 					}
 
 					s.note("subsystem:" + name)
+
+					if name != "netconf" {
+						// what sshd does with a subsystem it does not know ("subsystem request failed on channel 0")
+						_ = r.Reply(false, nil)
+						_ = ch.Close()
+
+						continue
+					}
+
 					_ = r.Reply(true, nil)
 
 					go s.cfg.OnSession("subsystem:"+name, ch)
